@@ -113,12 +113,17 @@ fn build_by_item_struct_core(
         &kinds.without_derive_ex(),
     )?;
     let fields = FieldEntry::from_fields(&item.fields, kinds)?;
+    // operators are implemented for `&Self` as well: a `Self` in a field type is written out for them
+    let (_, type_g, _) = item.generics.split_for_impl();
+    let this_ty_ident = &item.ident;
+    let op_item_fields = expand_self(&item.fields, &parse_quote!(#this_ty_ident #type_g));
+    let op_fields = FieldEntry::from_fields(&op_item_fields, kinds)?;
     let mut ts_all = TokenStream::new();
     for e in es {
         let result = match e.kind {
-            DeriveItemKind::BinaryOp(op) => build_binary_op(item, op, &e, &fields),
-            DeriveItemKind::AssignOp(op) => build_assign_op(item, op, &e, &fields),
-            DeriveItemKind::UnaryOp(op) => build_unary_op(item, op, &e, &fields),
+            DeriveItemKind::BinaryOp(op) => build_binary_op(item, op, &e, &op_fields),
+            DeriveItemKind::AssignOp(op) => build_assign_op(item, op, &e, &op_fields),
+            DeriveItemKind::UnaryOp(op) => build_unary_op(item, op, &e, &op_fields),
             DeriveItemKind::CompareOp(op) => {
                 build_compare_op_for_struct(op, item, &e, &hattrs, &fields)
             }
